@@ -36,7 +36,8 @@ def alphabet(full: bool = True) -> list[bytes]:
     A += [bytes([2, 0]), bytes([2, 1]), bytes([3, 0]), bytes([3, 1]), bytes([4, 0])]
     A += [bytes([137, 0]), bytes([137, 1]), bytes([137, 2])]
     A += [mvbytes(0, E=(0,)), mvbytes(0, S=(0,)), mvbytes(0, P=(0,)), mvbytes(0, N=(0,)), mvbytes(0, H=(0,)),
-          mvbytes(1, E=(0,)), mvbytes(0, E=(0,), H=(0,)), mvbytes(1, P=(0,), N=(0,))]
+          mvbytes(1, E=(0,)), mvbytes(0, E=(0,), H=(0,)), mvbytes(1, P=(0,), N=(0,)),
+          mvbytes(0, E=(1, 0)), mvbytes(0, S=(1, 0)), mvbytes(1, P=(1, 0), N=(0, 1))]
     A += [bytes([5]), bytes([6]), bytes([8, 0]), bytes([8, 1]), bytes([7, 0]), bytes([7, 1])]
     A += [bytes([10, 0]), bytes([10, 1]), bytes([11, 0]), bytes([11, 1])]
     A += [bytes([12]), bytes([13]), bytes([14]), bytes([15]), bytes([19])]
@@ -53,6 +54,7 @@ def alphabet(full: bool = True) -> list[bytes]:
 ALPHA = alphabet()
 # rule-centred alphabet for a deeper second search
 RULE_ALPHA = [bytes([2, 0]), bytes([2, 1]), bytes([3, 0]), bytes([137, 0]), bytes([137, 1]), mvbytes(0, E=(0,)), mvbytes(0, N=(0,)),
+              mvbytes(1, E=(1, 0)),
               bytes([5]), bytes([8, 0]), bytes([7, 0]), bytes([10, 0]), bytes([11, 0]),
               bytes([12]), bytes([13]), bytes([14]), bytes([15]), bytes([19]),
               bytes([21]), bytes([22, 0]), bytes([22, 1]), bytes([24, 0]), bytes([26, 1, 0]), bytes([26, 1, 1]), bytes([26, 2, 0, 1]),
